@@ -348,3 +348,24 @@ def run_regressions(prop, binary_for):
             log("VIOLATION property=%s replay=%s" % (prop, path))
             log("  signature=%s (a previously fixed defect is back)" % sig)
     return n, bad
+
+
+def determinism_selftest(cases, n=2000):
+    """cases: list of (label, binary, prop, tier, extra). Every seed is executed
+    twice, once striped over 16 workers and once over 3; the seed -> fingerprint
+    maps (and violation signatures) must be identical."""
+    report = []
+    ok = True
+    first = first_run_seed()
+    for label, binary, prop, tier, extra in cases:
+        out = scratch_dir("selftest-" + label)
+        a = run_batch(binary, prop, tier, first, n, out, workers=16, extra=extra)
+        b = run_batch(binary, prop, tier, first, n, out, workers=3, extra=extra)
+        diff = [s for s in a.fps if a.fps[s] != b.fps.get(s)]
+        va = sorted((v["seed"], v["signature"]) for v in a.violations)
+        vb = sorted((v["seed"], v["signature"]) for v in b.violations)
+        same = not diff and len(a.fps) == len(b.fps) == n and va == vb
+        ok &= same
+        report.append(dict(case=label, seeds=n, identical=same, diverging_seeds=diff[:10], distinct_fingerprints=len(set(a.fps.values()))))
+        log("[determinism] %-28s %d seeds x (16 workers, 3 workers): %s (%d distinct fingerprints)" % (label, n, "identical" if same else "DIVERGED %s" % diff[:5], len(set(a.fps.values()))))
+    return ok, report
